@@ -291,6 +291,15 @@ def _encode_rules(prog, res, f):
     res.ob("M-empty", "%s | two empty lists encode as 64 + 32 zero mask bits and nothing else" % tag, oke, "", loc)
 
 
+def _same_value(a, b):
+    """a and b denote the same value, possibly read through a fresh shared reference (`*&x`)"""
+    def strip(x):
+        while x.op in ("memval", "mem", "ref") and x.args:
+            x = x.args[0]
+        return x
+    return a is b or strip(a) is strip(b)
+
+
 def _rank_rule(res, f, fa, iv, tag, acc, n, loc):
     """an ascending loop 0..n stores counter into table[i] when (acc >> (n-1-i)) % 2 == 1 and then increments the counter"""
     found = False
@@ -317,11 +326,20 @@ def _rank_rule(res, f, fa, iv, tag, acc, n, loc):
                     okg = False
                     for g in fa.guards(b):
                         fc = fact_of_guard(g)
-                        if fc[0] == "Eq" and is_const(fc[2]) and const_val(fc[2]) == 1 and fc[1].op == "bin" and fc[1].args[0] == "Rem":
+                        # the lowest bit of the shifted mask is set:  x % 2 == 1,  x & 1 == 1,  x & 1 != 0,  x % 2 != 0
+                        low = len(fc) == 3 and fc[1].op == "bin" and is_const(fc[2]) and (
+                            (fc[1].args[0] == "Rem" and is_const(fc[1].args[2]) and const_val(fc[1].args[2]) == 2) or
+                            (fc[1].args[0] == "BitAnd" and is_const(fc[1].args[2]) and const_val(fc[1].args[2]) == 1)) and (
+                            (fc[0] == "Eq" and const_val(fc[2]) == 1) or (fc[0] == "Ne" and const_val(fc[2]) == 0))
+                        if low:
                             sh = fc[1].args[1]
-                            if sh.op == "bin" and sh.args[0] == "Shr" and sh.args[1] is acc:
+                            if sh.op == "bin" and sh.args[0] == "Shr" and _same_value(sh.args[1], acc):
                                 la, lc = lin(sh.args[2])
                                 okg = dict(la) == {idx: -1} and lc == n - 1
+                                if not okg and len(la) == 1:
+                                    # the index read through a reference to the loop item (closure parameter `&i`)
+                                    (a_, q_), = list(la)
+                                    okg = q_ == -1 and lc == n - 1 and _same_value(a_, idx)
                     # stored value is the running counter: a phi accumulator with +1 updates
                     okv = v.op == "phi"
                     if okr and okg and okv:
